@@ -59,6 +59,8 @@ type kind struct {
 	// guard inspects an input before it is decoded and returns the iteration count the decoder's loop is going to
 	// run when that count comes from the input alone (see hangGuard in check.go); nil for all other decoders.
 	guard func(b []byte) uint64
+	// clamp rewrites such an input so that the count is 2^22 (a surrogate that is safe to execute).
+	clamp func(b []byte) []byte
 	// jsonKey names the finding class of a failing JSON clause for this kind ("" = none recorded).
 	jsonKey string
 	// alt are other production paths decoding the same bytes; all successful ones must agree on ident.
@@ -767,6 +769,14 @@ func init() {
 			}
 			return sz
 		},
+		clamp: func(b []byte) []byte {
+			kl, ksz, _ := readVarRef(b, 0)
+			p := ksz + int(kl)
+			_, sz, _ := readVarRef(b, p)
+			out := append([]byte{}, b[:p]...)
+			out = putVarRef(out, 1<<22, 0)
+			return append(out, b[p+sz:]...)
+		},
 		build: func(t *tape) any {
 			p := &result.ProofWithKey{Key: t.blob(70)}
 			n := t.n(4)
@@ -924,6 +934,14 @@ func init() {
 		// FromJSON(best precision) expands a number with a decimal exponent e into ~3.3*e bits and prints it again
 		// (quadratic): 1e3000000 takes seconds, 1e100000000 hours. The guard finds the largest exponent in the text.
 		guard: jsonMaxExponent,
+		clamp: func(b []byte) []byte {
+			return reExp.ReplaceAllFunc(b, func(m []byte) []byte {
+				if jsonMaxExponent(m) > 3000000 {
+					return []byte("e3000000")
+				}
+				return m
+			})
+		},
 		build: func(t *tape) any { return buildItem(t, true, false) },
 		enc: func(v any, w gio.Writer) error {
 			b, err := stackitem.ToJSON(v.(stackitem.Item))
@@ -991,6 +1009,12 @@ func init() {
 				return 0
 			}
 			return n
+		},
+		clamp: func(b []byte) []byte {
+			_, sz, _ := readVarRef(b, 26)
+			out := append([]byte{}, b[:26]...)
+			out = putVarRef(out, 1<<22, 0)
+			return append(out, b[26+sz:]...)
 		},
 		build: func(t *tape) any { return buildTTI(t) }, enc: serEnc, dec: serDec[state.TokenTransferInfo](nil)})
 	for _, n11 := range []bool{false, true} {
